@@ -1,6 +1,7 @@
 import Norad.Model.FontSave
 import Norad.Lemmas.FontSave
 import Norad.Lemmas.SafePlan
+import Norad.Lemmas.Determined
 /-!
 # C09 — a saved tree depends only on the font and stays inside the target
 
@@ -140,11 +141,52 @@ theorem save_tree_depends_only_on_font (cfg : Cfg β) (f : AFont β) (fsA fsB fs
       have cB := wipe_mkdir_clean hwB hwipeB hkB
       exact runN_agree t _ hrestA hrestB (fun q hq => by rw [cA q hq, cB q hq])
 
+/-- **`exactly_the_determined_files`** (explicit form).  After a successful save of a font with safe paths onto `t` in a
+    well-formed file system, a path at or below `t` exists with kind `k` (`false` = directory, `true` = plain file)
+    **iff** `(path, k)` is in `expectedPaths f t` — a list computed from the font alone.  So: no remains of whatever
+    was there, `metainfo.plist` / `layercontents.plist` / every `contents.plist` always, each optional file exactly
+    when its content is not the empty default, `data/` and `images/` exactly when non-empty. -/
+theorem exactly_the_determined_files (cfg : Cfg β) (f : AFont β) (fs fs' : FS β) (t : APath)
+    (hs : safePaths f = true) (hwf : WF fs) (h : saveImpl cfg f fs t = (none, fs')) :
+    ∀ q k, t <+: q → (kindAt fs' q = some k ↔ (q, k) ∈ expectedPaths f t) := by
+  intro q k htq
+  obtain ⟨d, i, fs1, hv, hwipe, hrun⟩ := saveImpl_ok h
+  obtain ⟨hsd, hsi⟩ := forced_safe hs hv
+  obtain ⟨hfd, hfi⟩ := validatePhase_ok_stores hv
+  rw [plan_normal cfg f d i t hs hsd hsi] at hrun
+  obtain ⟨g2, hm, hrest⟩ := runN_cons_ok (es := planRestN cfg f d i t) hrun
+  simp only [NEff.toEff, runEff] at hm
+  cases hk : mkdir fs1 (tC t) with
+  | error x => simp [hk] at hm
+  | ok a =>
+    simp only [hk] at hm
+    cases hm
+    obtain ⟨htne, _, _, _⟩ := mkdir_tC hk
+    have hclean := wipe_mkdir_clean hwf hwipe hk q htq
+    have hq0 : q ≠ [] := by
+      intro e; subst e; exact htne (List.prefix_nil.mp htq)
+    have hk2 : kindAt g2 q = some k ↔ (q, k) = (t, false) := by
+      unfold kindAt
+      rw [node_of_ne_nil _ hq0, hclean]
+      by_cases e : t = q
+      · subst e; simp [kindOf]
+      · have : ¬ q = t := fun x => e x.symm
+        simp [e, this]
+    rw [runN_kinds _ hrest q k, hk2]
+    exact determined_core cfg f d i t (forceList_keys hfd) (forceList_keys hfi) hsd
+      (runN_no_fail _ hrest) q k htq
+
+/-- reading off one optional file: after a successful save `fontinfo.plist` is listed by `expectedPaths` iff the font
+    info is not the empty default or a (crafted) layer directory / glif carries that very name -/
+theorem fontinfo_listed_of_nonempty (f : AFont β) (t : APath) (h : f.info.isEmpty = false) :
+    (t ++ ["fontinfo.plist".toList], true) ∈ expectedPaths f t := by
+  unfold expectedPaths
+  simp [h, expTop]
+
 /-! ### `save_frame` is false without the guard (recorded findings)
 
-OPEN: `exactly_the_determined_files` in the form "the paths at and below `t` after a successful save are exactly
-`expectedPaths f t`" (checked on every generated case by the oracle rule `exact-files`); what is proved is that
-the sub-tree is a function of the font (`save_tree_depends_only_on_font`) and the emptiness gates of the plan. -/
+(`exactly_the_determined_files` above is proved in its explicit form; the oracle rule `exact-files` checks the same
+statement on the implementation's own output.) -/
 
 def cfgN : Cfg Nat := { render := fun _ => 0, entryOk := fun _ _ _ _ => true }
 
